@@ -120,7 +120,8 @@ def compare_field(tag, want, got_raw_or_value):
                 g, e = struct.unpack('<HH', got)
                 return (want >> 16, want & 0xFFFF) == (g, e)
             return False
-        return got.rstrip(b'\0 ').decode('ascii', 'replace') == str(want).rstrip(' ')
+        # leading and trailing spaces of AE / UI / string values are not significant (PS3.5 6.2)
+        return got.strip(b'\0 ').decode('ascii', 'replace') == str(want).strip(' ')
     if isinstance(want, str):
-        return str(got).rstrip('\0 ') == want.rstrip(' ')
+        return str(got).strip('\0 ') == want.strip(' ')
     return got == want
